@@ -368,7 +368,61 @@ def h14_rabbit(S):
                 info=f"{out['again']} ran and was acked, yet it is ready again after the connection closed: {out['ready_after_close']}")
 
 
+def h14_after_forced_stop(S):
+    """A worker is forced to stop while its job (with a retry left, zero back-off) runs; afterwards two consumers look at the queue."""
+    from repid import Job, Router, Worker
+    from repid.converter import BasicConverter
+
+    g = S.real("graceful_period", 0, Fraction(4, 1000))
+    unwind = [0, Fraction(3, 2)][S.pick("actor_unwinds_for_1500ms_when_cancelled", 2)]
+    out = {}
+
+    async def main(loop):
+        w = World()
+        await w.open(record=False)
+        r = Router()
+
+        @r.actor(converter=BasicConverter, retry_policy=lambda retry_number=1: real_timedelta(0))
+        async def job(i: int):
+            try:
+                await asyncio.sleep(Fraction(50, 1000))
+            except asyncio.CancelledError:
+                if unwind:
+                    await asyncio.sleep(unwind)
+                raise
+
+        await Job("job", args={"i": 0}, id_="m0", retries=1, _connection=w.conn).enqueue()
+        wa = Worker(routers=[r], handle_signals=[], _connection=w.conn, graceful_shutdown_time=g, messages_limit=1, tasks_limit=1)
+        await asyncio.wait_for(wa.run(), timeout=10)
+        cls = w.broker.CONSUMER_CLASS
+        saved = cls.UPDATE_DELAYED_EVERY
+        cls.UPDATE_DELAYED_EVERY = 0.004
+        try:
+            b = w.broker.get_consumer("default", ["job"])
+            c = w.broker.get_consumer("default", ["job"])
+            await b.start()
+            await c.start()
+            got_b = await try_consume(b, timeout=Fraction(1, 20))
+            # B keeps holding what it got while C looks (also after the first worker's actor has finally unwound)
+            await asyncio.sleep(2)
+            got_c = await try_consume(c, timeout=Fraction(1, 20))
+        finally:
+            cls.UPDATE_DELAYED_EVERY = saved
+        out["b"] = None if got_b is None else got_b[0].id_
+        out["c"] = None if got_c is None else got_c[0].id_
+
+    run_async(main)
+    S.cover("forced-stop-then-two-consumers")
+    S.check("message-available-again-after-the-forced-stop", out["b"] == "m0", info=str(out))
+    S.check("delivered-only-if-nobody-holds-it", out["c"] is None, info=f"consumer B holds {out['b']}, consumer C was handed {out['c']}")
+
+
 HARNESSES = [
+    Harness(name="H14-after-forced-stop", scenario=h14_after_forced_stop, workers=4,
+            bounds={"job": "50 ms, one retry left, zero back-off; the worker's graceful period is any real in [0, 4 ms]", "actor": "unwinds at once or needs 1.5 s when cancelled",
+                    "then": "consumer B takes the message and keeps it, consumer C looks 2 s later"},
+            functions=["_runner.py:_Runner._process_with_event", "_processor.py:_Processor._actor_run", "connections/in_memory/consumer.py:_InMemoryConsumer.finish"],
+            covers=["forced-stop-then-two-consumers"]),
     Harness(name="H14-rabbit", scenario=h14_rabbit,
             bounds={"scenarios": "a consumer finishing while it holds one message and buffers another, then a second consumer; "
                                  "reject -> redelivery -> ack -> connection closed", "settle calls": "return before or after the redelivery they cause"},
